@@ -51,6 +51,11 @@ func runBatch(c *Ctx, drv *sut.Driver, jobs []harness.Job, race bool, timeout ti
 	// (sync.Pool) would otherwise hide sharing between tasks that happen to sit on
 	// different Ps.
 	env := []string{"PATH=/usr/bin:/bin", "HOME=" + dir, "GOMAXPROCS=1"}
+	for _, j := range jobs {
+		if j.Free {
+			env[2] = "GOMAXPROCS=4" // observation mode: real parallel goroutines
+		}
+	}
 	if v := os.Getenv("VERIF_DRIVER_GOMAXPROCS"); v != "" {
 		env[2] = "GOMAXPROCS=" + v // determinism self-test only
 	}
